@@ -1,1 +1,37 @@
-PROPS = {}
+"""Per-property extras for the evidence (trusted base beyond the common one, explanation for level `other`)."""
+PROPS = {
+    "C01": dict(extra_trusted=["bounded leg: ruamel.yaml reads the text the harness writes; oracle in doubles with relative tolerance 1e-9",
+                                "completeness of the greedy ground cover is NOT proved: bounded over lattice layouts"]),
+    "C02": dict(extra_trusted=["list-summary combination rules (count, sums, hull, disjointness of concatenations) in contracts/alloc_common.py::Summary",
+                                "FLATMAP loop shape (vf/loopshape.py) as side condition of the per-cell lifting"]),
+    "C03": dict(extra_trusted=["Rectangle.area_overlap / find_location replaced by their C18 / C06 contracts inside module loading and per-cell runs",
+                                "FLATMAP loop shape as side condition"]),
+    "C04": dict(extra_trusted=["ruamel.yaml: a tree of dict/list/str/number/bool is read back unchanged (tuples as lists) -- assumed at tree level, exercised in the bounded text leg"]),
+    "C05": dict(extra_trusted=["documents are templates over a finite set of names; find_location / overlap / create_stog replaced by their contracts where stated"]),
+    "C06": dict(extra_trusted=["create_stog verified against the contract of find_location (stub = spec term discharged in the same run)"]),
+    "C07": dict(extra_trusted=["pysat / Minisat22 as SAT oracle", "nothing beyond the stated bounds is proved for the CNF model sets"]),
+    "C08": dict(extra_trusted=["pysat / Minisat22 as SAT oracle and model enumerator", "grids are full lattices"]),
+    "C09": dict(extra_trusted=["GEKKO only builds the model (nothing solved)", "z3 translation of ExpressionTree cross-validated against evaluate() on every run",
+                                "instances (netlist constants) enumerated, configurations symbolic"]),
+    "C10": dict(extra_trusted=["ASSUMED and unchecked: after solve every GEKKO/APOPT variable is within its bounds and every equation holds",
+                                "Die._netlist set through a private attribute in the harness"]),
+    "C11": dict(extra_trusted=["the worklist loops of split_rectangles are covered by step lemmas + bounded unrollings, not by mechanical induction"]),
+    "C12": dict(extra_trusted=["QUANT / FLATMAP shapes as side conditions; Summary combination rules"]),
+    "C13": dict(extra_trusted=["loop-cut rewrite of fruchterman_reingold_layout (printed in the evidence: one inserted statement)",
+                                "deepcopy / layout / overlap replaced by recorders in the force_algorithm contract"]),
+    "C15": dict(extra_trusted=["brute-force oracles written for this check (decomposability, polygon tracing)"]),
+    "C16": dict(extra_trusted=["operands in normal form with symbolic positive coefficients over an enumerated variable structure"]),
+    "C17": dict(extra_trusted=["acos/sin uninterpreted with range and sin(acos x)=sqrt(1-x^2) axioms", "delta-mode: IEEE-754 standard model without under/overflow",
+                                "mpmath (40 digits) as oracle of the bounded float leg"]),
+    "C18": dict(extra_trusted=["range-loop cut of rectangle_grid (printed in the evidence)"]),
+    "C19": dict(extra_trusted=["ruamel.yaml", "numpy arrays synthesised for the FloorSet converter"],
+                explanation="Deductive tree-level round trips for the die and allocation writers (all numbers symbolic, written tree re-read by the "
+                            "real reader, producer called twice, argument state compared); bounded run-time contracts for generators, FloorSet "
+                            "converter and the string-built netlists of rect / legalfloor through the real text layer; static mutation analysis "
+                            "of 13 producers with dynamic confirmation of candidates."),
+    "C20": dict(extra_trusted=["fresh interpreters are subprocesses of the check", "histories are seeded random sequences over 8 kinds of operations"],
+                explanation="History dependence can only enter through process-wide state: that state is inventoried from the AST on every run; the "
+                            "class-wide tolerances are shown not to change any answer by relational obligations (the same real function under two "
+                            "arbitrary tolerance settings, separation precondition); the ROBDD store, legaliser registers and mutable defaults by "
+                            "invariants / AST checks; and six probed operations are compared between a fresh interpreter and seeded random histories."),
+}
